@@ -229,6 +229,14 @@ func checkC08(c *Ctx) {
 		}
 	}
 
+	// guarded registry: look-up-or-create must be one critical section or double-checked
+	r.Rule("C08.B2-registry-atomic", "a guarded package-level registry is read and updated in one critical section (or the inserting section re-checks)", 2)
+	var gspecs []GuardSpec
+	for gid, lock := range guarded {
+		gspecs = append(gspecs, GuardSpec{Field: FieldID{Type: "global", Field: gid}, Lock: lock})
+	}
+	CheckSingleSection(p, e, r, "C08.B2-registry-atomic", gspecs)
+
 	// ---- B3
 	get := p.Func("byteslicepool", "ByteSlicePool.Get")
 	okZ, nret := true, 0
@@ -244,6 +252,22 @@ func checkC08(c *Ctx) {
 				okZ = false
 				why = "Get can return (at " + p.Pos(ret.Pos()) + ") a recycled slice that was not zeroed over its whole length: the previous user's bytes become visible to the next caller"
 			}
+		}
+	})
+	// the zeroing loop covers len(buf): sound only if Put stores the slice with the length its user left it at
+	put := p.Func("byteslicepool", "ByteSlicePool.Put")
+	allInstrs(put, func(in ssa.Instruction) {
+		ci, ok := in.(ssa.CallInstruction)
+		if !ok || !callIs(ci, "sync", "Pool", "Put") {
+			return
+		}
+		v := ci.Common().Args[1]
+		if mi, ok := v.(*ssa.MakeInterface); ok {
+			v = mi.X
+		}
+		if _, isParam := v.(*ssa.Parameter); !isParam {
+			okZ = false
+			why = "Put stores a re-sliced view of the caller's slice (not the slice at the length its user left it at) while Get only zeroes len(buf) bytes of what it recycles: bytes written by the previous user beyond the stored length are handed to the next caller as soon as it grows the slice within its capacity"
 		}
 	})
 	r.Check(okZ && nret > 0, "C08.B3-zeroed", "byteslicepool.ByteSlicePool.Get", p.Pos(get.Pos()), "recycled slices are zeroed over their whole length before being handed out; otherwise fresh memory", why)
